@@ -121,6 +121,10 @@ theorem refines_step (s : PR α) (op : Op α (PR α)) (h : PRInv s) (hok : OpOk 
       have hl : (abs s).lookup n = .error .key := by simp [Abs.lookup, hn]
       simp only [hf, hn, if_false, hl, Bool.or_false]
       cases d <;> simp <;> fin rfl
+  | popBadKw => fin rfl
+  | setSliceScalar sl =>
+    have e : sl.indices (abs s).toks.length = sl.indices s.toks.length := rfl
+    cases hg : sl.indices s.toks.length <;> simp only [step, specStep, Op.map, e, hg] <;> fin rfl
   | insert i v =>
     simp only [step, specStep, Op.map]
     fin (abs_fixIns s _ i)
@@ -202,6 +206,8 @@ theorem prinv_step (s : PR α) (op : Op α (PR α)) (h : PRInv s) : PRInv (step 
       · exact h
       · split <;> first | exact prinv_ddel h n | exact h
     · split <;> exact h
+  | popBadKw => exact h
+  | setSliceScalar sl => simp only [step]; split <;> exact h
   | insert i v => exact prinv_fixIns h _ i
   | append v => exact prinv_toks h _
   | extendList vs => exact prinv_toks h _
